@@ -134,9 +134,64 @@ pub fn family_histories(name: &str, root: &str, depths: &[u8], prior_depths: &[u
         }
     });
     acc.merge(res);
+    // (a'') commands that must be inert, between `ucinewgame` and the measured search: refused go commands (no game
+    // yet), stop/wait without a search, show, refused position commands, the handshake, junk, a second ucinewgame.
+    // "Right after ucinewgame" must mean the same engine state whatever was refused in between.
+    let inert_all = inert_commands();
+    let mut iwords: Vec<Vec<String>> = inert_all.iter().map(|x| vec![x.clone()]).collect();
+    for a in ["go depth 2", "stop"] {
+        for b in &inert_all {
+            iwords.push(vec![a.to_string(), b.clone()]);
+        }
+    }
+    acc.add(&format!("family {}: inert-command words between ucinewgame and the measured search", name), iwords.len() as u64);
+    let strip = |seg: &Vec<String>| -> Vec<String> { seg.iter().filter(|l| !(l.starts_with("error:") || l.starts_with("id ") || l.as_str() == "uciok")).cloned().collect() };
+    let base_stripped: Vec<Vec<String>> = base.iter().map(&strip).collect();
+    let res2 = par_items(&iwords, &|_, w, acc| {
+        let mut script = vec![];
+        for r in &roots {
+            for d in depths {
+                script.push("ucinewgame".to_string());
+                script.extend(w.iter().cloned());
+                script.push("isready".to_string());
+                script.push(pos_cmd(r));
+                script.push(format!("go depth {}", d));
+                script.push("wait".to_string());
+            }
+        }
+        acc.states += 1;
+        let wtext = w.join(" ; ");
+        let replay = json::obj(vec![("kind", json::s("c19-inert")), ("family", json::s(name)), ("inert", json::strs(w))]);
+        match uci_seq(script) {
+            Err(e) => acc.violation(format!("c19-inert-died|{}|{}", name, wtext), format!("session died: {} [inert commands: {}]", e, wtext), replay),
+            Ok(t) => {
+                let seg: Vec<Vec<String>> = segments(&t).iter().map(&strip).collect();
+                if seg.len() != nseg {
+                    acc.violation(format!("c19-inert-segments|{}|{}", name, wtext), format!("{} answered searches instead of {} [inert commands after each ucinewgame: {}]", seg.len(), nseg, wtext), replay);
+                    return;
+                }
+                for (k, (a, b)) in seg.iter().zip(base_stripped.iter()).enumerate() {
+                    acc.evaluations += 1;
+                    acc.transitions += 1;
+                    if a != b {
+                        let r = &roots[k / depths.len()];
+                        let d = depths[k % depths.len()];
+                        let first_diff = a.iter().zip(b.iter()).position(|(x, y)| x != y).unwrap_or(a.len().min(b.len()));
+                        acc.violation(format!("c19-inert|{}|{}|{}|{}", name, wtext, r.text(), d), format!("`ucinewgame ; {} ; {} ; go depth {}` prints a different transcript than a fresh engine (first difference at line {}: {:?} vs fresh {:?})", wtext, pos_cmd(r), d, first_diff, a.get(first_diff), b.get(first_diff)), replay);
+                        break;
+                    }
+                }
+            }
+        }
+    });
+    acc.merge(res2);
     if acc.samples.len() < 2 {
         acc.sample(json::obj(vec![("family", json::s(name)), ("measured", json::s(format!("for each of {} roots x depths {:?}: ucinewgame; isready; position r; go depth d; wait", roots.len(), depths))), ("example_segment", json::strs(&base[base.len() / 2]))]));
     }
+}
+
+pub fn inert_commands() -> Vec<String> {
+    ["go depth 2", "go infinite", "go movetime 1", "stop", "wait", "show", "position fen 8/8 w", "position startpos moves e2e5", "uci", "xyz", "ucinewgame"].iter().map(|s| s.to_string()).collect()
 }
 
 /// digest of the fresh-engine transcripts of all families (for the cross-process comparison)
@@ -240,6 +295,53 @@ pub fn run(tier: &str, seed: i64) -> Outcome {
         acc.count("(c) second process printed byte-identical transcripts for all fresh sessions");
     }
     reports.push(SpaceReport { name: "(c) all fresh-engine sessions once more in a second process (different address-space layout and allocator state)".into(), states: 1, exhaustive: true, note: format!("digest {} [{:.1}s]", mine, t1.elapsed().as_secs_f64()) });
+    // (d) the real binary (release build of the repository itself, hooks off, real stdout): the same fresh sessions
+    let t3 = std::time::Instant::now();
+    match crate::realbin::real_bin() {
+        None => acc.errors.push("VERIF_REAL_BIN not set or missing: the real-binary conformance stage was not run".into()),
+        Some(bin) => {
+            let fams = e3::family_roots();
+            let res = par_items(&fams, &|_, (name, root), acc| {
+                let roots = e3::family(root);
+                let script = measured_script(&roots, &depths);
+                let mine = match uci_seq(script.clone()) {
+                    Ok(t) => segments(&t),
+                    Err(_) => return, // reported by (a)
+                };
+                acc.states += 1;
+                let replay = json::obj(vec![("kind", json::s("c19-real")), ("family", json::s(*name))]);
+                for round in 0..2 {
+                    match crate::realbin::transcript(&bin, &script, std::time::Duration::from_secs(300)) {
+                        Err(e) => {
+                            acc.violation(format!("c19-real-died|{}", name), format!("the real binary failed on the fresh sessions of family {}: {}", name, e), replay.clone());
+                            return;
+                        }
+                        Ok(t) => {
+                            let theirs = segments(&t);
+                            acc.evaluations += theirs.len() as u64;
+                            acc.transitions += theirs.len() as u64;
+                            if theirs.len() != mine.len() {
+                                acc.violation(format!("c19-real-count|{}", name), format!("the real binary answered {} searches, the in-process engine {} (family {})", theirs.len(), mine.len(), name), replay.clone());
+                                return;
+                            }
+                            for (k, (a, b)) in theirs.iter().zip(mine.iter()).enumerate() {
+                                if a != b {
+                                    let r = &roots[k / depths.len()];
+                                    let d = depths[k % depths.len()];
+                                    let first_diff = a.iter().zip(b.iter()).position(|(x, y)| x != y).unwrap_or(a.len().min(b.len()));
+                                    acc.violation(format!("c19-real|{}|{}|{}", name, r.text(), d), format!("`{} ; go depth {}` on a fresh engine: the real binary (run {}) prints {:?} at line {} where the in-process engine prints {:?}", pos_cmd(r), d, round + 1, a.get(first_diff), first_diff, b.get(first_diff)), replay.clone());
+                                    return;
+                                }
+                            }
+                        }
+                    }
+                }
+                acc.count("(d) families whose fresh transcripts the real binary reproduced byte for byte, twice");
+            });
+            acc.merge(res);
+            reports.push(SpaceReport { name: format!("(d) real binary {}: the fresh sessions of every family (root x depth {:?}), two processes each, compared line by line with the in-process transcripts", bin, depths), states: fams.len() as u64, exhaustive: true, note: format!("[{:.1}s]", t3.elapsed().as_secs_f64()) });
+        }
+    }
     // (b)
     let t2 = std::time::Instant::now();
     let nsh = 15;
@@ -274,6 +376,12 @@ pub fn replay(j: &J) -> Result<Acc, String> {
                 }
             }
         }
+        Some("c19-inert") => {
+            let fam = j.get("family").and_then(|x| x.as_str()).ok_or("family")?;
+            let root = e3::family_roots().into_iter().find(|(n, _)| *n == fam).ok_or("unknown family")?.1;
+            family_histories(fam, root, &[1, 2, 3], &[], 0, &mut acc);
+        }
+        Some("c19-real") => return Ok(run("quick", 0).acc),
         Some("c19-process") => {
             let mine = fresh_digest("quick");
             let w = run_workers(&self_exe(), vec![vec!["C19".into(), "quick".into(), "0".into(), "--worker".into()]], 1);
